@@ -539,7 +539,7 @@ FIXED_DOCS = (
 )
 
 
-def gen_cases(tier, rng, classes=CLASSES, n_quick=4000, n_thorough=60000):
+def gen_cases(tier, rng, classes=CLASSES, n_quick=5000, n_thorough=60000):
     """Common case stream of C11 and C12."""
     for doc in FIXED_DOCS:
         for cls in classes:
